@@ -104,7 +104,9 @@ pub open spec fn removal_justified(q: Map<String, Sender<ServiceEvent>>, expired
 // DnsCache::get_addresses_for_host (proved in unit cachewalk: exactly the unexpired address records of the lower-cased name);
 // here only its result is named
 impl DnsCache {
-    pub uninterp spec fn addresses_for(&self, host: Seq<char>) -> HashMap<String, HashSet<ScopedIp>>;
+    // (the result depends on the lower-cased name only: that is what unit cachewalk proves)
+    pub uninterp spec fn addresses_under(&self, host_lower: Seq<char>) -> HashMap<String, HashSet<ScopedIp>>;
+    pub open spec fn addresses_for(&self, host: Seq<char>) -> HashMap<String, HashSet<ScopedIp>> { self.addresses_under(lower(host)) }
     #[verifier::external_body]
     pub fn get_addresses_for_host(&self, host: &str) -> (r: HashMap<String, HashSet<ScopedIp>>)
         ensures r == self.addresses_for(host@),
@@ -255,3 +257,119 @@ impl Zeroconf {
 }
 pub open spec fn one_question(name: Seq<char>, t: RRType) -> Seq<(Seq<char>, RRType)> { seq![(name, t)] }
 pub open spec fn both_addresses(host: Seq<char>) -> Seq<(Seq<char>, RRType)> { seq![(host, RRType::A), (host, RRType::AAAA)] }
+// ---- handle_response, event side ----
+pub struct InstanceChange { pub ty: RRType, pub name: String }   // local struct of handle_response, hoisted
+impl DnsRecordDyn {
+    // DnsRecordExt accessors through the trait object
+    #[verifier::external_body]
+    pub fn get_type(&self) -> (r: RRType) ensures r == self.rec().entry.ty { unimplemented!() }
+    #[verifier::external_body]
+    pub fn get_name(&self) -> (r: &str) ensures r@ == rec_name(self.rec()) { unimplemented!() }
+}
+// `msg.all_records()`: answers, then authorities, then additionals (an iterator chain in the code)
+#[verifier::external_body]
+pub fn vx_all_records(msg: DnsIncoming) -> (r: Vec<DnsRecordBox>)
+    ensures r@ == msg.answers@ + msg.authorities@ + msg.additional@,
+{ unimplemented!() }
+// what one call of DnsCache::add_or_update answered: the record as it now stands in the cache, and whether it is new
+pub ghost struct Added { pub rec: DnsRecordIntf, pub fresh: bool }
+impl DnsCache {
+    pub uninterp spec fn adds(&self) -> Seq<Option<Added>>;
+    // proved in unit cacheadd; here only what it answers is logged
+    #[verifier::external_body]
+    pub fn add_or_update(&mut self, intf: &MyIntf, incoming: DnsRecordBox, timers: &mut Vec<u64>, is_for_us: bool) -> (r: Option<(&DnsRecordIntf, bool)>)
+        ensures final(self).adds() == old(self).adds().push(match r { Some(p) => Some(Added { rec: *p.0, fresh: p.1 }), None => None }),
+    { unimplemented!() }
+    // proved in unit cache: the instances with an SRV record that targets the host
+    pub uninterp spec fn instances_on(&self, host: Seq<char>) -> Seq<String>;
+    #[verifier::external_body]
+    pub fn get_instances_on_host(&self, host: &str) -> (r: Vec<String>) ensures r@ == self.instances_on(host@) { unimplemented!() }
+}
+// The closure `record_predicate` and the three `retain(&mut record_predicate)` calls: records that are already expired
+// when they arrive are taken out of the message (and out of the cache, with a ServiceRemoved for a PTR).  FnMut
+// closure over the cache: outside Verus; it only ever sends ServiceRemoved and does not call add_or_update.
+#[verifier::external_body]
+pub fn vx_drop_expired_records(msg: &mut DnsIncoming, cache: &mut DnsCache, queriers: &HashMap<String, Sender<ServiceEvent>>, now: u64, log: &mut Ghost<Seq<Sent<ServiceEvent>>>)
+    ensures
+        final(cache).adds() == old(cache).adds(), extends(old(log)@, final(log)@),
+        forall|k: int| old(log)@.len() <= k < final(log)@.len() ==> (#[trigger] final(log)@[k]).ev is ServiceRemoved,
+{ unimplemented!() }
+pub open spec fn is_addr_change(c: InstanceChange) -> bool { c.ty == RRType::A || c.ty == RRType::AAAA }
+// `changes.iter().filter(|c| c.ty == RRType::A || c.ty == RRType::AAAA)`
+#[verifier::external_body]
+pub fn vx_addr_changes(changes: &Vec<InstanceChange>) -> (r: Vec<&InstanceChange>)
+    ensures
+        forall|i: int| 0 <= i < r@.len() ==> is_addr_change(*(#[trigger] r@[i])) && changes@.contains(*r@[i]),
+        forall|j: int| 0 <= j < changes@.len() && is_addr_change(#[trigger] changes@[j]) ==> exists|i: int| 0 <= i < r@.len() && *(#[trigger] r@[i]) == changes@[j],
+{ unimplemented!() }
+#[verifier::external_body]
+pub fn vx_map_has_str<V>(m: &HashMap<String, V>, k: &str) -> (r: bool) ensures r == m_has(m@, k@) { unimplemented!() }
+impl Zeroconf {
+    // proved in unit conflict (on the reduced struct): registries, monitors and timers only
+    #[verifier::external_body]
+    pub fn conflict_handler(&mut self, msg: &DnsIncoming, if_index: u32)
+        ensures *final(self) == (Zeroconf { dns_registry_map: final(self).dns_registry_map, timers: final(self).timers, monitors: final(self).monitors, ..*old(self) }),
+    { unimplemented!() }
+    #[verifier::external_body]
+    pub fn add_timer(&mut self, next_time: u64)
+        ensures *final(self) == (Zeroconf { timers: final(self).timers, ..*old(self) }),
+    { unimplemented!() }
+}
+// the instance names a freshly stored record touches: the target of a PTR record (TTL > 1), the owner of an SRV / TXT
+// record, every instance with an SRV record targeting the owner of an address record
+pub open spec fn touches(c: DnsCache, a: Option<Added>, inst: Seq<char>) -> bool {
+    a is Some && a->Some_0.fresh && ({
+        let r = a->Some_0.rec.record;
+        let ty = r.rec().entry.ty;
+        (ty == RRType::PTR && r.rec().ttl > 1 && r.ptr_view() == Some(inst))
+        || ((ty == RRType::SRV || ty == RRType::TXT) && rec_name(r.rec()) == inst)
+        || ((ty == RRType::A || ty == RRType::AAAA) && c.instances_on(rec_name(r.rec())).contains(key_string(inst)))
+    })
+}
+// a freshly stored PTR record (TTL > 1) of type `ty` naming `inst`
+pub open spec fn new_ptr(a: Option<Added>, ty: Seq<char>, inst: Seq<char>) -> bool {
+    a is Some && a->Some_0.fresh && a->Some_0.rec.record.rec().entry.ty == RRType::PTR && a->Some_0.rec.record.rec().ttl > 1
+    && a->Some_0.rec.record.ptr_view() == Some(inst) && rec_name(a->Some_0.rec.record.rec()) == ty
+}
+// the entry handle_response puts on its `changes` list for a freshly stored record
+pub open spec fn change_for(a: Option<Added>) -> Option<InstanceChange> {
+    if a is Some && a->Some_0.fresh {
+        let r = a->Some_0.rec.record;
+        if r.rec().entry.ty == RRType::PTR && r.rec().ttl > 1 {
+            if r.ptr_view() is Some { Some(InstanceChange { ty: RRType::PTR, name: key_string(r.ptr_view()->Some_0) }) } else { None }
+        } else {
+            Some(InstanceChange { ty: r.rec().entry.ty, name: key_string(rec_name(r.rec())) })
+        }
+    } else { None }
+}
+// what the last loop of handle_response must have put into `updated_instances` for one change
+pub open spec fn change_covered(c: DnsCache, ch: InstanceChange, u: Set<String>) -> bool {
+    ((ch.ty == RRType::PTR || ch.ty == RRType::SRV || ch.ty == RRType::TXT) ==> u.contains(ch.name))
+    && ((ch.ty == RRType::A || ch.ty == RRType::AAAA) ==> forall|i: int| 0 <= i < c.instances_on(ch.name@).len() ==> u.contains(#[trigger] c.instances_on(ch.name@)[i]))
+}
+// a freshly stored address record of host `h`
+pub open spec fn new_addr(a: Option<Added>, h: Seq<char>) -> bool {
+    a is Some && a->Some_0.fresh && (a->Some_0.rec.record.rec().entry.ty == RRType::A || a->Some_0.rec.record.rec().entry.ty == RRType::AAAA) && rec_name(a->Some_0.rec.record.rec()) == h
+}
+// every address set the cache lists for `h` was handed to the resolver registered under the lower-cased name (if any)
+pub open spec fn addresses_reported(l: Seq<Sent<HostnameResolutionEvent>>, n0: int, c: DnsCache, hr: Map<String, (Sender<HostnameResolutionEvent>, Option<u64>)>, h: Seq<char>, upto: int) -> bool {
+    m_has(hr, lower(h)) ==> forall|e: int| 0 <= e < upto ==> handed_over(l, n0, hr[key_string(lower(h))].0,
+        HostnameResolutionEvent::AddressesFound((#[trigger] c.addresses_for(h).entries()[e]).0, c.addresses_for(h).entries()[e].1))
+}
+pub proof fn lemma_handed_extends<T>(l0: Seq<Sent<T>>, l1: Seq<Sent<T>>, n0: int)
+    requires extends(l0, l1), 0 <= n0 <= l0.len(),
+    ensures forall|to: Sender<T>, ev: T| handed_over(l0, n0, to, ev) ==> #[trigger] handed_over(l1, n0, to, ev),
+{
+    assert forall|k: int| 0 <= k < l0.len() implies #[trigger] l1[k] == l0[k] by {
+        assert(l1.subrange(0, l0.len() as int)[k] == l0[k]);
+    }
+    assert forall|to: Sender<T>, ev: T| handed_over(l0, n0, to, ev) implies #[trigger] handed_over(l1, n0, to, ev) by {
+        if sent_since(l0, n0, to, ev) {
+            let k = choose|k: int| n0 <= k < l0.len() && (#[trigger] l0[k]).to == to && l0[k].ev == ev;
+            assert(l1[k] == l0[k]);
+        } else {
+            let k = choose|k: int| n0 <= k < l0.len() && (#[trigger] l0[k]).to == to && !l0[k].ok;
+            assert(l1[k] == l0[k]);
+        }
+    }
+}
